@@ -1,6 +1,7 @@
 package session
 
 import (
+	"sort"
 	"sync"
 
 	"github.com/256dpi/gomqtt/packet"
@@ -9,6 +10,8 @@ import (
 // PacketStore is a goroutine safe packet store.
 type PacketStore struct {
 	packets map[packet.ID]packet.Generic
+	order   map[packet.ID]uint64
+	counter uint64
 	mutex   sync.RWMutex
 }
 
@@ -16,15 +19,14 @@ type PacketStore struct {
 func NewPacketStore() *PacketStore {
 	return &PacketStore{
 		packets: make(map[packet.ID]packet.Generic),
+		order:   make(map[packet.ID]uint64),
 	}
 }
 
 // NewPacketStoreWithPackets returns a new PacketStore with the provided packets.
 func NewPacketStoreWithPackets(packets []packet.Generic) *PacketStore {
 	// prepare store
-	store := &PacketStore{
-		packets: make(map[packet.ID]packet.Generic),
-	}
+	store := NewPacketStore()
 
 	// add packets
 	for _, pkt := range packets {
@@ -42,6 +44,9 @@ func (s *PacketStore) Save(pkt packet.Generic) {
 
 	id, ok := packet.GetID(pkt)
 	if ok {
+		// remember when the packet has been saved
+		s.counter++
+		s.order[id] = s.counter
 		s.packets[id] = pkt
 	}
 }
@@ -62,9 +67,11 @@ func (s *PacketStore) Delete(id packet.ID) {
 
 	// delete packet
 	delete(s.packets, id)
+	delete(s.order, id)
 }
 
-// All will return all packets currently saved in the store.
+// All will return all packets currently saved in the store in the order they
+// have been saved, so that they can be retransmitted in their original order.
 func (s *PacketStore) All() []packet.Generic {
 	s.mutex.RLock()
 	defer s.mutex.RUnlock()
@@ -74,6 +81,13 @@ func (s *PacketStore) All() []packet.Generic {
 	for _, pkt := range s.packets {
 		all = append(all, pkt)
 	}
+
+	// sort packets by the time they have been saved
+	sort.Slice(all, func(i, j int) bool {
+		a, _ := packet.GetID(all[i])
+		b, _ := packet.GetID(all[j])
+		return s.order[a] < s.order[b]
+	})
 
 	return all
 }
@@ -85,4 +99,5 @@ func (s *PacketStore) Reset() {
 
 	// reset packets
 	s.packets = make(map[packet.ID]packet.Generic)
+	s.order = make(map[packet.ID]uint64)
 }
